@@ -735,6 +735,10 @@ func (g *trigGen) event() string {
 			return fmt.Sprintf("h:%d", g.height-int64(r.Intn(3))) // already passed
 		case x < 3:
 			return fmt.Sprintf("h:%d", g.height+int64(20+r.Intn(1000)))
+		case x < 5:
+			// heights in the upper half of the uint64 range (never reached; a signed comparison would see them as past)
+			return "h:" + Pick(r, []string{"9223372036854775807", "9223372036854775808", "9223372036854775809",
+				"18446744073709551615", "18446744073709551614", "13835058055282163712"})
 		default:
 			return fmt.Sprintf("h:%d", g.height+1+int64(r.Intn(4)))
 		}
